@@ -1093,6 +1093,390 @@ def primitives_stream(ctx, lad):
     return st
 
 
+# ------------------------------------------------------------------ hardening: state, types, bands, asymmetry
+
+KNOWN_ABSORB = 'C14-cubic-absorb-exponent-period'
+
+
+def py_swap_contract(n, log, order):
+    """the swap network contract, evaluated in Python (sizes where the Lean Spec evaluation is too slow)"""
+    if order != list(range(n))[::-1] or len(log) != n * (n - 1) // 2:
+        return False
+    seen = set()
+    for p, q, a, b in log:
+        if b != a + 1 or not (0 <= a and b < n) or p == q or not (0 <= p < n and 0 <= q < n):
+            return False
+        k = (min(p, q), max(p, q))
+        if k in seen:
+            return False
+        seen.add(k)
+    return len(seen) == n * (n - 1) // 2
+
+
+def hardening_stream(ctx, lad):
+    import cirq
+    import scipy.linalg as la
+    of = ctx.of
+    st = Stream('state-types-bands', '(S) one gate instance queried, mutated in place (fswap, absorb_exponent_into_weights, '
+                'permute) and queried again: unitary / generator must describe the NEW weights (= a fresh gate, = FSWAP '
+                'conjugation of the previous unitary); arguments of the primitives are not modified; repeated calls after '
+                'mutating returned containers give fresh equal results. (T) numpy / Python scalar types for angles, exponents, '
+                'weights; float32 / complex64 / float64 / int / Fortran-ordered transformation matrices; tuple / set / ndarray / '
+                'range initial states (types accepted by the unmodified tree, probed when the check was built): result = result '
+                'for the canonical types (1e-9; 1e-6 for 32-bit inputs). (B) angles and weights 1e-2..1e-7 next to O(1), Givens '
+                'angles 1e-3..1e-6, swap networks with mode indices >= 257. (A) purely imaginary / purely real / negative weights '
+                'and matrices; distinct = distinct cases')
+    rng = rng_for(ctx.seed, 'c14-hard')
+    rs = np.random.RandomState(rng.randrange(2 ** 31))
+    big = ctx.tier == 'thorough' or ctx.drift
+    lad.prefetch([2, 3, 4])
+    FS = cirq.unitary(of.FSWAP)
+
+    def chk(case, what, d, tol=TOL, detail=None):
+        st.float_comparisons += 1
+        st.count(what.split(':')[0])
+        if not d <= tol:
+            st.violate(what, case, dict({'max_abs_difference': float(d)}, **(detail or {})))
+            return False
+        return True
+
+    def emb(i, nq):
+        return kron(*([np.eye(2)] * i + [FS] + [np.eye(2)] * (nq - 2 - i)))
+
+    classes = [(of.QuadraticFermionicSimulationGate, 2, 2), (of.CubicFermionicSimulationGate, 3, 3),
+               (of.QuarticFermionicSimulationGate, 3, 4)]
+
+    def rand_w(kind):
+        if kind == 'imag':
+            return complex(0, rng.choice([-1.5, -0.5, 0.25, 0.75, 1.0]))
+        if kind == 'real':
+            return complex(rng.choice([-1.5, -0.5, 0.25, 0.75, 1.0]), 0)
+        if kind == 'tiny':
+            return complex(rng.choice([1e-3, -1e-5, 1e-7]), rng.choice([0, 1e-4, -1e-6]))
+        return complex(rng.randint(-6, 6) / 4, rng.randint(-6, 6) / 4) or (0.5 + 0.25j)
+
+    # ---- (S) + (A) + (B): one instance, mutated in place
+    nrep = budget(ctx.tier, 3, 12)
+    if ctx.drift:
+        nrep = max(nrep, 6)
+    for cls, nw, nq in classes:
+        for rep in range(nrep):
+            kinds = [rng.choice(['generic', 'generic', 'imag', 'real', 'tiny']) for _ in range(nw)]
+            ws = tuple(rand_w(k) for k in kinds)
+            if cls is of.QuadraticFermionicSimulationGate:
+                ws = (ws[0], ws[1].real or 0.5)
+            t = rng.choice([1.0, 0.5, -0.25, 2.0])
+            case = {'family': 'S', 'gate': cls.__name__, 'weights': [str(w) for w in ws], 'exponent': t, 'kinds': kinds}
+            st.case(case)
+            st.count('S:gate-mutation')
+            try:
+                g = cls(ws, exponent=t)
+                fresh = lambda: cirq.unitary(cls(tuple(g.weights), exponent=g.exponent))  # noqa: E731
+                prev = cirq.unitary(g)
+                _ = g.qubit_generator_matrix
+                h = g ** 2
+                Uh = cirq.unitary(h)
+                g0 = g.permuted(list(range(nq))[::-1]) if nq > 1 else g
+                w_before = tuple(g.weights)
+                chk(case, 'S: permuted() must not modify the gate', 0.0 if tuple(g.weights) == w_before else 1.0)
+                steps = [('fswap', i) for i in range(nq - 1)] + [('absorb', None)] + \
+                        [('fswap', rng.randrange(nq - 1))] + [('permute', rng.sample(range(nq), nq))] + \
+                        [('fswap', rng.randrange(nq - 1))]
+                for kind, arg in steps:
+                    tag = '%s(%s)' % (kind, arg if arg is not None else '')
+                    if kind == 'fswap':
+                        g.fswap(arg)
+                        Fi = emb(arg, nq)
+                        now = cirq.unitary(g)
+                        chk(case, 'S: unitary after in-place %s = FSWAP-conjugate of the previous unitary' % tag,
+                            maxdiff(now, Fi @ prev @ Fi.conj().T), detail={'step': tag})
+                    elif kind == 'absorb':
+                        wraps = bool(cls is of.CubicFermionicSimulationGate
+                                     and sum(1 for w in g.weights if w != 0) >= 2
+                                     and any(not (0 <= abs(w) * g.exponent < 2 * math.pi) for w in g.weights if w != 0))
+                        g.absorb_exponent_into_weights()
+                        now = cirq.unitary(g)
+                        chk(case, 'S: unitary unchanged by absorb_exponent_into_weights', maxdiff(now, prev),
+                            detail={'step': tag, 'cubic_with_coupled_weights_wrapping_mod_2pi': wraps})
+                        chk(case, 'S: exponent is 1 after absorb_exponent_into_weights', abs(g.exponent - 1))
+                    else:
+                        g.permute(arg)
+                        now = cirq.unitary(g)
+                    chk(case, 'S: unitary after in-place %s = unitary of a fresh gate with the new weights' % kind,
+                        maxdiff(now, fresh()), detail={'step': tag})
+                    chk(case, 'S: exp(-i t qubit_generator_matrix) after in-place %s = unitary' % kind,
+                        maxdiff(la.expm(-1j * g.exponent * g.qubit_generator_matrix), now), detail={'step': tag})
+                    Hapi = lad.op(nq, g.fermion_generator.terms)
+                    chk(case, 'S: exp(-i t JW(fermion_generator)) after in-place %s = unitary' % kind,
+                        maxdiff(la.expm(-1j * g.exponent * Hapi), now), detail={'step': tag})
+                    prev = now
+                chk(case, 'S: g**2 computed before the mutations is unaffected by them', maxdiff(cirq.unitary(h), Uh))
+                del g0
+            except Exception as e:  # noqa: BLE001
+                st.violate('S: gate mutation sequence raised %s' % type(e).__name__, case, {'exception': repr(e)[:200]})
+
+    # ---- (T) scalar types for angles / exponents / weights
+    th = 0.375
+    angle_types = [('int', 1), ('numpy.int64', np.int64(1)), ('numpy.float64', np.float64(th)),
+                   ('numpy.float32', np.float32(th)), ('bool', True)]
+    makers = [('Rxxyy', of.Rxxyy), ('Ryxxy', of.Ryxxy), ('Rzz', of.Rzz), ('rot11', of.rot11), ('rot111', of.rot111),
+              ('CRxxyy', of.CRxxyy), ('CRyxxy', of.CRyxxy), ('FSWAP**', lambda x: of.FSWAP ** x),
+              ('DoubleExcitation', lambda x: of.DoubleExcitationGate(exponent=x))]
+    for name, mk in makers:
+        for tn, val in angle_types:
+            if name in ('FSWAP**', 'DoubleExcitation') and tn == 'bool':
+                continue
+            case = {'family': 'T', 'gate': name, 'type': tn, 'value': float(val)}
+            st.case(case)
+            st.count('T:angle-type')
+            ok, d = safe(st, 'T: %s(%s)' % (name, tn), case,
+                         lambda: maxdiff(cirq.unitary(mk(val)), cirq.unitary(mk(float(val)))))
+            if ok:
+                chk(case, 'T: gate built from a %s angle = gate built from the float' % tn, d)
+    weight_types = [('int', lambda x: int(round(x.real)), TOL), ('float', lambda x: float(x.real), TOL),
+                    ('numpy.complex128', np.complex128, TOL), ('numpy.complex64', np.complex64, 1e-6),
+                    ('numpy.float64', lambda x: np.float64(x.real), TOL),
+                    ('numpy.int64', lambda x: np.int64(round(x.real)), TOL),
+                    ('numpy.float32', lambda x: np.float32(x.real), 1e-6)]
+    for cls, nw, nq in classes:
+        for tn, conv, tol in weight_types:
+            base = [complex(rng.choice([-2, -1, 1, 2]), rng.choice([-0.5, 0.25, 0.75])) for _ in range(nw)]
+            if cls is of.QuadraticFermionicSimulationGate:
+                base[1] = complex(base[1].real, 0)
+            ws = tuple(conv(b) for b in base)
+            canon = tuple(complex(w) for w in ws)
+            for cont in (tuple, list):
+                case = {'family': 'T', 'gate': cls.__name__, 'weight_type': tn, 'container': cont.__name__,
+                        'weights': [str(w) for w in ws]}
+                st.case(case)
+                st.count('T:weight-type')
+                t = rng.choice([0.5, 1.0, -0.75])
+                ok, d = safe(st, 'T: %s with %s weights' % (cls.__name__, tn), case, lambda: maxdiff(
+                    cirq.unitary(cls(cont(ws), exponent=t)), cirq.unitary(cls(canon, exponent=t))))
+                if ok:
+                    chk(case, 'T: gate with %s weights = gate with complex weights' % tn, d, tol)
+
+    # ---- (B) small angles and weights (documented matrices / generators as oracle)
+    XX, YY = kron(PAULI['X'], PAULI['X']), kron(PAULI['Y'], PAULI['Y'])
+    YX, XY, ZZ = kron(PAULI['Y'], PAULI['X']), kron(PAULI['X'], PAULI['Y']), kron(PAULI['Z'], PAULI['Z'])
+    for a in (1e-2, -1e-3, 1e-4, 1e-5, -1e-6, 1e-7):
+        docs = [('Rxxyy', of.Rxxyy, la.expm(-1j * a * (XX + YY) / 2)), ('Ryxxy', of.Ryxxy, la.expm(-1j * a * (YX - XY) / 2)),
+                ('Rzz', of.Rzz, la.expm(-1j * a * ZZ)), ('rot11', of.rot11, np.diag([1, 1, 1, np.exp(1j * a)])),
+                ('rot111', of.rot111, np.diag([1] * 7 + [np.exp(1j * a)]))]
+        for name, mk, doc in docs:
+            case = {'family': 'B', 'gate': name, 'angle': a}
+            st.case(case)
+            st.count('B:small-angle')
+            ok, U = safe(st, 'B: %s' % name, case, lambda: cirq.unitary(mk(a)))
+            if ok:
+                chk(case, 'B: documented matrix at a small angle (%s)' % name, maxdiff(U, doc), 1e-12)
+    for cls, nw, nq in classes:
+        for rep in range(budget(ctx.tier, 2, 6)):
+            ws = [rand_w('tiny') if (i + rep) % 2 == 0 else rand_w('generic') for i in range(nw)]
+            if cls is of.QuadraticFermionicSimulationGate:
+                ws[1] = ws[1].real or 1e-5
+            t = rng.choice([1.0, 0.5])
+            case = {'family': 'B', 'gate': cls.__name__, 'weights': [str(w) for w in ws], 'exponent': t}
+            st.case(case)
+            st.count('B:small-weight')
+            ok, g = safe(st, 'B: %s' % cls.__name__, case, lambda: cls(tuple(ws), exponent=t))
+            if ok:
+                ok, U = safe(st, 'B: unitary(%s)' % cls.__name__, case, lambda: cirq.unitary(g))
+            if ok:
+                chk(case, 'B: exp(-i t JW(fermion_generator)) with small and O(1) weights',
+                    maxdiff(la.expm(-1j * t * lad.op(nq, g.fermion_generator.terms)), U), 1e-11)
+                sv = rng_state(rng, 2 ** nq)
+                qs = cirq.LineQubit.range(nq)
+                out = cirq.Simulator(dtype=np.complex128).simulate(cirq.Circuit(g(*qs)), initial_state=sv,
+                                                                   qubit_order=qs).final_state_vector
+                chk(case, 'B: simulator path = unitary with small and O(1) weights', maxdiff(out, U @ sv), 1e-11)
+
+    # ---- primitives: (S) arguments untouched / repeated calls, (T) matrix and state types, (B), (A)
+    lad.prefetch([3, 4])
+    for n in ([3, 4] if not big else [2, 3, 4, 5]):
+        qubits = cirq.LineQubit.range(n)
+        W0 = rand_unitary(rs, n)
+        eps = rng.choice([1e-3, 1e-5, 1e-6])
+        Wg = np.eye(n, dtype=complex)
+        Wg[0, 0] = Wg[n - 1, n - 1] = math.cos(eps)
+        Wg[0, n - 1], Wg[n - 1, 0] = math.sin(eps), -math.sin(eps)
+        Wi = 1j * rand_unitary(rs, n, True)
+        Hq = of.random_quadratic_hamiltonian(n, conserves_particle_number=False, seed=rng.randrange(10 ** 6))
+        Wq = np.asarray(Hq.diagonalizing_bogoliubov_transform()[1], dtype=complex)
+        mats = [('haar', W0), ('tiny-givens(%g)' % eps, Wg), ('imaginary-orthogonal', Wi), ('gaussian', Wq)]
+        for kind, W in mats:
+            case = {'family': 'S/B/A', 'fn': 'bogoliubov_transform', 'n': n, 'kind': kind, 'W': W}
+            st.case(case)
+            st.count('prim:' + kind.split('(')[0])
+            Wc = W.copy()
+            try:
+                ops1 = list(cirq.flatten_op_tree(of.bogoliubov_transform(qubits, W)))
+                chk(case, 'S: bogoliubov_transform must not modify its matrix', maxdiff(W, Wc), 0.0)
+                ops1_snapshot = list(ops1)
+                ops1.clear()
+                ops2 = list(cirq.flatten_op_tree(of.bogoliubov_transform(qubits, W)))
+                chk(case, 'S: second call of bogoliubov_transform = first call', 0.0 if ops2 == ops1_snapshot else 1.0)
+                U = circuit_unitary(cirq, ops2, qubits)
+                for p in range(n):
+                    if W.shape[1] == n or kind == 'gaussian':
+                        chk(case, 'B/A: conjugation identity (%s)' % kind.split('(')[0],
+                            maxdiff(U @ lad.get(n, p, 1) @ U.conj().T, bogoliubov_rhs(lad, W, n, p)))
+            except Exception as e:  # noqa: BLE001
+                st.violate('S/B/A: bogoliubov_transform raised %s' % type(e).__name__, case, {'exception': repr(e)[:200]})
+                continue
+            if W.shape[1] != n:
+                continue
+            # (T) dtype / layout variants of the same square matrix
+            perm = np.eye(n)[rng.sample(range(n), n)]
+            variants = [('float64', Wg.real.astype(np.float64), Wg, TOL), ('float32', Wg.real.astype(np.float32), Wg, 1e-6),
+                        ('complex64', W.astype(np.complex64), W, 1e-6), ('fortran', np.asfortranarray(W), W, TOL),
+                        ('int64', perm.astype(np.int64), perm.astype(complex), TOL),
+                        ('int32', perm.astype(np.int32), perm.astype(complex), TOL)]
+            if kind != 'haar':
+                variants = []
+            for tn, Wt, Wcanon, tol in variants:
+                c2 = {'family': 'T', 'fn': 'primitives', 'n': n, 'dtype': tn}
+                st.case(c2)
+                st.count('T:matrix-type')
+                for fname, f in (('bogoliubov_transform', lambda M: of.bogoliubov_transform(qubits, M)),
+                                 ('prepare_slater_determinant',
+                                  lambda M: of.prepare_slater_determinant(qubits, M[: max(1, n // 2)])),
+                                 ('optimal_givens_decomposition',
+                                  lambda M: of.optimal_givens_decomposition(qubits, M))):
+                    ok, d = safe(st, 'T: %s(%s)' % (fname, tn), c2, lambda: maxdiff(
+                        circuit_unitary(cirq, f(Wt), qubits), circuit_unitary(cirq, f(np.array(Wcanon, dtype=complex)), qubits)))
+                    if ok:
+                        chk(c2, 'T: %s with a %s matrix = with the complex128 matrix' % (fname, tn), d, tol)
+            # (T) initial state containers
+            occ = sorted(rng.sample(range(n), rng.randint(0, n)))
+            ok, Uref = safe(st, 'bogoliubov_transform(initial_state list)', case, lambda: circuit_unitary(
+                cirq, of.bogoliubov_transform(qubits, W.copy(), initial_state=list(occ)), qubits))
+            if ok and kind == 'haar':
+                for tn, ini in (('tuple', tuple(occ)), ('numpy.int64 list', [np.int64(i) for i in occ]),
+                                ('ndarray', np.array(occ, dtype=int)), ('set', set(occ)),
+                                ('reversed list', list(occ)[::-1])):
+                    c2 = {'family': 'T', 'fn': 'initial_state', 'n': n, 'type': tn, 'occupied': occ}
+                    st.case(c2)
+                    st.count('T:initial-state-type')
+                    for fname, f in (('bogoliubov_transform',
+                                      lambda i_: of.bogoliubov_transform(qubits, W.copy(), initial_state=i_)),
+                                     ('prepare_slater_determinant',
+                                      lambda i_: of.prepare_slater_determinant(qubits, W[: max(1, n // 2)].copy(),
+                                                                               initial_state=i_))):
+                        init_idx = sum(1 << (n - 1 - j) for j in occ)
+                        ok, d = safe(st, 'T: %s(initial_state %s)' % (fname, tn), c2, lambda: phase_diff(
+                            circuit_unitary(cirq, f(ini), qubits)[:, init_idx],
+                            circuit_unitary(cirq, f(list(occ)), qubits)[:, init_idx]))
+                        if ok:
+                            chk(c2, 'T: %s with a %s initial state = with the list' % (fname, tn), d)
+        # optimal_givens_decomposition: argument untouched, second call with the same array equal
+        Wc = W0.copy()
+        case = {'family': 'S', 'fn': 'optimal_givens_decomposition', 'n': n, 'unitary': Wc}
+        st.case(case)
+        st.count('S:argument-untouched')
+        ok, o1 = safe(st, 'optimal_givens_decomposition', case,
+                      lambda: list(of.optimal_givens_decomposition(qubits, W0)))
+        if ok:
+            chk(case, 'S: optimal_givens_decomposition must not modify its unitary argument', maxdiff(W0, Wc), 0.0)
+            U1 = circuit_unitary(cirq, o1, qubits)
+            o1.clear()
+            ok, o2 = safe(st, 'optimal_givens_decomposition (2nd call, same array)', case,
+                          lambda: list(of.optimal_givens_decomposition(qubits, W0)))
+            if ok:
+                U2 = circuit_unitary(cirq, o2, qubits)
+                chk(case, 'S: second call of optimal_givens_decomposition with the same array = first call',
+                    maxdiff(U2, U1))
+                for q in range(n):
+                    chk(case, 'S: conjugation identity of the second call of optimal_givens_decomposition',
+                        maxdiff(U2 @ lad.get(n, q, 1) @ U2.conj().T, sum(Wc[p, q] * lad.get(n, p, 1) for p in range(n))))
+        # prepare_slater_determinant / prepare_gaussian_state arguments
+        Q = rand_unitary(rs, n)[: max(1, n // 2)]
+        Qc = Q.copy()
+        case = {'family': 'S', 'fn': 'prepare_slater_determinant', 'n': n, 'Q': Qc}
+        st.case(case)
+        ok, _ = safe(st, 'prepare_slater_determinant', case,
+                     lambda: list(cirq.flatten_op_tree(of.prepare_slater_determinant(qubits, Q))))
+        if ok:
+            chk(case, 'S: prepare_slater_determinant must not modify its matrix', maxdiff(Q, Qc), 0.0)
+        Hc = of.random_quadratic_hamiltonian(n, conserves_particle_number=bool(n % 2), seed=rng.randrange(10 ** 6))
+        snap = {k: v.copy() if hasattr(v, 'copy') else v for k, v in Hc.n_body_tensors.items()}
+        case = {'family': 'S', 'fn': 'prepare_gaussian_state', 'n': n}
+        st.case(case)
+        ok, o1 = safe(st, 'prepare_gaussian_state', case,
+                      lambda: list(cirq.flatten_op_tree(of.prepare_gaussian_state(qubits, Hc))))
+        if ok:
+            chk(case, 'S: prepare_gaussian_state must not modify the Hamiltonian',
+                max(maxdiff(np.asarray(Hc.n_body_tensors[k]), np.asarray(v)) for k, v in snap.items()), 0.0)
+            ok, o2 = safe(st, 'prepare_gaussian_state (2nd call)', case,
+                          lambda: list(cirq.flatten_op_tree(of.prepare_gaussian_state(qubits, Hc))))
+            if ok:
+                chk(case, 'S: second call of prepare_gaussian_state = first call',
+                    maxdiff(circuit_unitary(cirq, o1, qubits), circuit_unitary(cirq, o2, qubits)))
+    # ---- gates from an InteractionOperator: operator untouched, results not shared between calls
+    n = 4
+    one = np.zeros((n, n), dtype=complex)
+    two = np.zeros((n, n, n, n), dtype=complex)
+    for (p, q), c in (((0, 1), 0.5 + 0.25j), ((1, 3), 1j), ((2, 2), -0.75), ((0, 3), 1e-5)):
+        one[p, q] += c
+        if p != q:
+            one[q, p] += c.conjugate()
+    for (p, q, r_, s_), c in (((0, 1, 2, 3), 0.5j), ((0, 2, 0, 3), 0.25), ((1, 2, 2, 1), -1.0), ((3, 0, 2, 1), 1e-4 + 0j)):
+        two[p, q, r_, s_] += c
+        two[s_, r_, q, p] += c.conjugate()
+    op = of.InteractionOperator(0.5, one.copy(), two.copy())
+    case = {'family': 'S', 'fn': 'fermionic_simulation_gates_from_interaction_operator'}
+    st.case(case)
+    ok, g1 = safe(st, 'fermionic_simulation_gates_from_interaction_operator', case,
+                  lambda: of.fermionic_simulation_gates_from_interaction_operator(op))
+    if ok:
+        chk(case, 'S: gates_from_interaction_operator must not modify the operator',
+            max(maxdiff(op.one_body_tensor, one), maxdiff(op.two_body_tensor, two), abs(op.constant - 0.5)), 0.0)
+        us1 = {k: (cirq.unitary(v) if not isinstance(v, (int, float, complex)) else v) for k, v in g1.items()}
+        try:
+            for k, v in list(g1.items()):
+                if hasattr(v, 'fswap'):
+                    v.fswap(0)
+            g1.clear()
+            g2 = of.fermionic_simulation_gates_from_interaction_operator(op)
+            same = set(g2) == set(us1) and all(
+                maxdiff(np.atleast_2d(cirq.unitary(v) if not isinstance(v, (int, float, complex)) else v),
+                        np.atleast_2d(us1[k])) <= TOL for k, v in g2.items())
+            chk(case, 'S: second call of gates_from_interaction_operator = first call (after mutating the first result)',
+                0.0 if same else 1.0)
+        except Exception as e:  # noqa: BLE001
+            st.violate('S: gates_from_interaction_operator second call raised %s' % type(e).__name__, case,
+                       {'exception': repr(e)[:200]})
+    # ---- (B) swap networks with mode indices >= 257 (contract evaluated in Python), repeated call
+    for n in ([258] if not big else [258, 300]):
+        for off in (False, True):
+            case = {'family': 'B', 'fn': 'swap_network', 'n': n, 'offset': off}
+            st.case(case)
+            st.count('B:swap-network-large')
+            qubits = list(cirq.LineQubit.range(n))
+            qcopy = list(qubits)
+            pos = {q: i for i, q in enumerate(qubits)}
+            log = []
+            ok, res = safe(st, 'swap_network', case, lambda: of.swap_network(
+                qubits, lambda p, q, a, b: log.append((p, q, pos[a], pos[b])) or (), fermionic=True, offset=off))
+            if not ok:
+                continue
+            order = list(range(n))
+            for o in res:
+                i, j = pos[o.qubits[0]], pos[o.qubits[1]]
+                order[i], order[j] = order[j], order[i]
+            if not py_swap_contract(n, log, order):
+                st.violate('B: swap network contract violated for a register with mode indices >= 257', case, {})
+            if qubits != qcopy:
+                st.violate('S: swap_network modifies its qubit list', case, {})
+            if n == 258 and not off:
+                first = list(res)
+                res.clear()
+                again = of.swap_network(qubits, fermionic=True, offset=off)
+                if again != first:
+                    st.violate('S: second call of swap_network differs from the first', case, {})
+    return st
+
+
 # ------------------------------------------------------------------ known findings
 
 KNOWN_DOC = 'C14-quadratic-docstring-w1-sign'
@@ -1105,6 +1489,9 @@ def classify(v):
          or v['what'].startswith('state: prepare_gaussian_state'))
             and v['detail'].get('gaussian_annihilation_block_singular') is True):
         return KNOWN_SING
+    if (v['what'] == 'S: unitary unchanged by absorb_exponent_into_weights'
+            and v['detail'].get('cubic_with_coupled_weights_wrapping_mod_2pi') is True):
+        return KNOWN_ABSORB
     if (v['what'] == 'Quadratic gate differs from its class-docstring Hamiltonian'
             and v['detail'].get('agrees_with_docstring_after_flipping_sign_of_w1') is True):
         return KNOWN_DOC
@@ -1121,6 +1508,11 @@ def probe_known(ctx, k):
         U = circuit_unitary(cirq, of.bogoliubov_transform(qs, W.copy()), qs)
         lad = Ladders(ctx.driver)
         return bool(maxdiff(U @ lad.get(2, 0, 1) @ U.conj().T, bogoliubov_rhs(lad, W, 2, 0)) > 1e-6)
+    if k['id'] == KNOWN_ABSORB:
+        g = of.CubicFermionicSimulationGate((1.0 + 0j, 1.0 + 0j, 0j), exponent=-1.0)
+        U = cirq.unitary(g)
+        g.absorb_exponent_into_weights()
+        return bool(maxdiff(cirq.unitary(g), U) > 1e-6)
     if k['id'] == KNOWN_DOC:
         doc = of.QuadraticFermionicSimulationGate.__doc__ or ''
         U = cirq.unitary(of.QuadraticFermionicSimulationGate((0.0, 1.0)))
@@ -1132,4 +1524,5 @@ def probe_known(ctx, k):
 
 def run(ctx):
     lad = Ladders(ctx.driver)
-    return [swap_stream(ctx), gates_stream(ctx, lad), glue_stream(ctx), primitives_stream(ctx, lad)]
+    return [swap_stream(ctx), gates_stream(ctx, lad), glue_stream(ctx), primitives_stream(ctx, lad),
+            hardening_stream(ctx, lad)]
